@@ -180,6 +180,9 @@ func c04(run *core.Run, replay string) {
 		cfgs = append(cfgs, cf{t, "NONE", 16384, false})
 	}
 	cfgs = append(cfgs, cf{"BWT+RANK+ZRLT", "ANS0", 16384, false}, cf{"RLT+ZRLT", "HUFFMAN", 16384, false}, cf{"ZRLT+LZ", "NONE", 32768, false})
+	// blocks larger than the 256 KiB default buffers with chains whose MaxEncodedLen exceeds the block size by more than 1/8
+	// (the task buffers are then grown inside the tasks)
+	cfgs = append(cfgs, cf{"EXE+LZ", "NONE", 262144, false}, cf{"TEXT+UTF+EXE+PACK+MM+ROLZ", "NONE", 524288, false}, cf{"EXE+PACK", "HUFFMAN", 393216, false}, cf{"MM+EXE", "ANS0", 262144, false})
 	mixes := [][]string{
 		{"dna", "text", "numeric", "text", "random", "text", "text", "dna"},
 		{"elfx86", "text", "cyrillic", "wav", "text", "base64", "runs", "magicmix", "utf8dirty", "html"},
@@ -201,6 +204,9 @@ func c04(run *core.Run, replay string) {
 			nb := []int{9, 17, 25}[(ci+mi)%3]
 			if mi == 3 {
 				nb = []int{7, 13}[ci%2] // the partial last block is a "random" one
+			}
+			if c.bs >= 262144 {
+				nb = 7
 			}
 			if c.heavy {
 				nb = 7
